@@ -19,7 +19,7 @@ import (
 
 var (
 	intPool   = []int64{0, 1, -1, 2, 3, 7, -3, 10, 60, math.MinInt64, math.MaxInt64}
-	floatPool = []float64{0, math.Copysign(0, -1), 1, -1.5, 2.5, 10, 0.1, math.NaN(), math.Inf(1), math.Inf(-1), 1e19, -1e19, 9007199254740993}
+	floatPool = []float64{0, math.Copysign(0, -1), 1, -1, 2, 3, 7, -1.5, 2.5, 10, 0.1, math.NaN(), math.Inf(1), math.Inf(-1), 1e19, -1e19, 9007199254740993}
 	strPool   = []string{"", "a", "abc", "b", "é", "a b", "Zz", "abcabc", "true", "12", "1s"}
 	asciiPool = []string{"", "a", "abc", "hello", "abcabc"}
 	durPool   = []time.Duration{0, time.Second, -time.Second, 1, time.Minute, math.MaxInt64, 3 * time.Millisecond}
